@@ -71,7 +71,7 @@ check('C13', 'typestate rules over every swap2 instantiation (ordered flavour pa
 
 check('C03', 'who-may-construct rule on comparator-typed expressions, post-dominance of sort/merge/unique after bulk writes, control dependence of the node reset, comparator-call counting, type-level const-view witnesses',
       'Decides structural clauses necessary for C03: stored comparator used for every decision, every bulk writer re-establishes sorted+unique with a stable sort, insert(node) empties the node only on insertion, no mutable access to the sorted storage, every lookup is one binary search.',
-      'Also: CMP-INIT (constructors / swap carry the comparator), NODE-MOVE / NODE-POS (a refused node keeps its value and reports the blocking element), LOOKUP-CASE (find / contains / count / equal_range / lower_bound / upper_bound evaluated per case of the key - nothing at or after it, absent with a successor, present - return what std::set returns), MUTATE-CASE (insert(value) / emplace / erase(key) evaluated in the same cases: what is inserted or erased where, and the (position, flag) / count returned, are std::set's), MERGE-ORDER, EQ-ELEM (operator== / != compare the element sequences with the element equality, not with the comparator). Partial: equality with std::set over histories is not decided; the hint decision tree is C12.',
+      'Also: CMP-INIT (constructors / swap carry the comparator), NODE-MOVE / NODE-POS (a refused node keeps its value and reports the blocking element), LOOKUP-CASE (find / contains / count / equal_range / lower_bound / upper_bound evaluated per case of the key - nothing at or after it, absent with a successor, present - return what std::set returns), MUTATE-CASE (insert(value) / emplace / erase(key) evaluated in the same cases: what is inserted or erased where, and the (position, flag) / count returned, are those of std::set), MERGE-ORDER, EQ-ELEM (operator== / != compare the element sequences with the element equality, not with the comparator). Partial: equality with std::set over histories is not decided; the hint decision tree is C12.',
       'DESIGN.md section 4, C03')
 
 check('C04', 'typestate analysis over SmallSet members with facts from isSmall()/isSmallContFull()/grow() per operand; membership-test dominance; comparator provenance',
